@@ -155,5 +155,11 @@ def run(ctx: core.Ctx) -> int:
                                    f"{'noise matrix' if 'noise' in pname else 'model'} is no longer what the caller supplied by name",
                                line=calls[0].lineno)
     ctx.floor("ARG-PASS", npass, 4, "constructor arguments of the filter in python.compile_ekf")
+    from . import c13 as _c13nv
+    _c13nv.named_arrays(ctx, ("vec", "cov"))
+    # no module-level / class-level mutable state shared between filters: one filter's construction or update must not reach another's (shared with C01)
+    from . import c15 as _c15pp
+    ctx.rule("PY-PURE", "no module-level / class-level mutable state shared between filters (shared with C01)")
+    _c15pp.gen_pure(ctx, {"python": "py/formak/python.py", "common": "py/formak/common.py"}, rule="PY-PURE", floor=40)
     return core.finish(ctx, explanation="E2 axis typing + E3 normal form of process_model's result, name-keyed noise table, "
                                         "effect analysis of the prediction path", **META)
